@@ -104,6 +104,51 @@ def _keys(repo, rep):
                   "same function of the slot name (mangled)",
                   construct="slot-key-shape",
                   detail="writer %s / reader %s" % (src(w[0]), src(r[0])))
+    # the same for macro names: the compiler names a macro's render function
+    # 'render_' + mangle(name); template.macros[name] has to look it up under
+    # the same function of the name (a macro called 'a.b' must be found)
+    comp_sites = []
+    for fq in (COMP + "visit_MacroProgram", COMP + "visit_UseInternalMacro",
+               COMP + "visit_Macro"):
+        if repo.has_func(fq):
+            comp_sites += [src(x) for x in _fmt_sites(repo.func(fq),
+                                                      "render_%s")]
+    gi_ = repo.func("chameleon.zpt.template.Macros.__getitem__")
+    look = None
+    for n in ast.walk(gi_.node):
+        if isinstance(n, ast.Call) and src(n.func) == "getattr" and \
+                len(n.args) >= 2:
+            k = L.inline_locals(gi_.node, n.args[1])
+            for t_, a_, n_ in L.fmt_sites(k):
+                if t_ == "_render_%s" and len(a_) == 1:
+                    look = a_[0]
+    # the parameter 'name' is re-bound by the key function: follow it
+    keyfun = None
+    if look is not None:
+        e = look
+        for _ in range(4):
+            if not isinstance(e, ast.Name):
+                break
+            defs = [a.value for a in ast.walk(gi_.node)
+                    if isinstance(a, ast.Assign)
+                    and src(a.targets[0]) == e.id and a.value is not e]
+            if not defs:
+                break
+            e = defs[-1]
+        keyfun = src(e)
+    okm = bool(comp_sites) and all(
+        c_.startswith("mangle(") for c_ in comp_sites) and \
+        keyfun is not None and keyfun.startswith("mangle(") and \
+        repo.resolve(gi_.module, "mangle") is not None and \
+        repo.resolve(gi_.module, "mangle")[0] == "func" and \
+        repo.resolve(gi_.module, "mangle")[1].qualname == \
+        "chameleon.compiler.mangle"
+    rep.check(okm, "R09.1", gi_.qualname, "template.macros[name] looks the "
+              "macro up under the key function the compiler publishes it "
+              "under (mangle): a macro named 'a.b' or 'a b' is found",
+              construct="macro-key-agreement", where=L.where(gi_),
+              detail="compiler: %s; lookup: %s" % (sorted(set(comp_sites)),
+                                                   keyfun))
     # ... and an injective one: two different slot names must not share a
     # key.  mangle() replaces every character outside [A-Za-z0-9_] by '_',
     # a character it keeps -- 'x-y' and 'x_y' (and 'x.y') become one key
@@ -177,7 +222,11 @@ def _keys(repo, rep):
               construct="publish", where=L.where(cook))
     gi = repo.func(TPL + "Macros.__getitem__")
     text = L.text(gi.node)
-    rep.check("getattr(self.template, '_render_%s' % name)" in text,
+    rep.check(any(isinstance(n, ast.Call) and src(n.func) == "getattr"
+                  and len(n.args) >= 2 and src(n.args[0]) == "self.template"
+                  and any(t_ == "_render_%s" and len(a_) == 1 for t_, a_, n_
+                          in L.fmt_sites(L.inline_locals(gi.node, n.args[1])))
+                  for n in ast.walk(gi.node)),
               "R09.1", gi.qualname, "public lookup reads _render_<name>",
               construct="public-name", where=L.where(gi))
 
